@@ -22,6 +22,7 @@ EXPLANATION = (
     'may be built only from content, the stored configuration and the key family secrets - no clock, randomness, counter, concurrency level or argument order; '
     'dominance of the existence test (same location term) over the upload; lookup-before-insert on the chunk table. Rules C07.R1-R6.'
     ' Added with the seeded-defect rounds: upload only through backend \'absent\' answers on all reaching definitions, stateless chunker, loader skip whitelist, completion flag of the producer, deletion confinement, cache holds content-addressed snapshot objects only.'
+    ' Round 6: keep-set construction and plain set difference in delete, kept hashing contexts used through copies only, queue hand-over.'
 )
 NOT_DECIDED = 'that the stored object set equals the distinct-chunk set after arbitrary histories (depends on runtime chunker output and backend state)'
 TRUSTED = ['the native chunker is a pure function of (buffer, final, key, bounds) - decided for the source under C10', 'CPython ast']
